@@ -474,7 +474,7 @@ def inline_helpers(func, depth=2, only=None, skip=()):
 
 READ_ONLY_METHODS = {'group', 'groups', 'groupdict', 'strip', 'lstrip', 'rstrip', 'lower', 'upper', 'casefold', 'startswith', 'endswith', 'get', 'keys', 'items',
                      'values', 'find', 'rfind', 'count', 'isdigit', 'isspace', 'isalpha', 'isalnum', 'split', 'rsplit', 'splitlines', 'partition', 'rpartition',
-                     'start', 'end', 'span', 'decode', 'encode', 'join', 'format', 'replace'}
+                     'start', 'end', 'span', 'decode', 'encode', 'join', 'format', 'replace', 'match', 'search', 'fullmatch'}
 
 
 def _reads_only(e):
@@ -504,9 +504,69 @@ def _pure(e, allow_calls=()):
     return True
 
 
-def propagate_aliases(fnode, allow_calls=('len',), only_simple=False, also_bool=False):
+def sink_branch_bound_calls(fnode):
+    """`if C: ...; f = A.m  else: ...; f = B.n` followed by the statement `f(args)`, f used nowhere else: the call moves to the end of
+    each branch as `A.m(args)` / `B.n(args)`.  A bound method taken and called at once is the direct call; the binding is the last
+    statement of its branch, so nothing runs between taking and calling."""
+    fn = clone(fnode)
+    loads = {}
+    for n in ast.walk(fn):
+        if isinstance(n, ast.Name) and isinstance(n.ctx, ast.Load):
+            loads[n.id] = loads.get(n.id, 0) + 1
+
+    def leaves(st):
+        out = [st.body]
+        if len(st.orelse) == 1 and isinstance(st.orelse[0], ast.If):
+            sub = leaves(st.orelse[0])
+            return None if sub is None else out + sub
+        if not st.orelse:
+            return None
+        return out + [st.orelse]
+
+    def rewrite(body):
+        out = []
+        i = 0
+        while i < len(body):
+            st = body[i]
+            for fld in ('body', 'orelse', 'finalbody'):
+                if isinstance(getattr(st, fld, None), list) and not isinstance(st, (ast.FunctionDef, ast.ClassDef)):
+                    setattr(st, fld, rewrite(getattr(st, fld)))
+            for h in getattr(st, 'handlers', []) or []:
+                h.body = rewrite(h.body)
+            nxt = body[i + 1] if i + 1 < len(body) else None
+            if isinstance(st, ast.If) and isinstance(nxt, ast.Expr) and isinstance(nxt.value, ast.Call) and isinstance(nxt.value.func, ast.Name):
+                f = nxt.value.func.id
+                lv = leaves(st)
+                ok = lv is not None and loads.get(f) == 1 and not any(isinstance(n, ast.Name) and n.id == f for a in nxt.value.args for n in ast.walk(a))
+                if ok:
+                    for blk in lv:
+                        last = blk[-1] if blk else None
+                        if not (isinstance(last, ast.Assign) and len(last.targets) == 1 and norm(last.targets[0]) == f and isinstance(last.value, ast.Attribute)):
+                            ok = False
+                        elif any(isinstance(n, ast.Name) and n.id == f and isinstance(n.ctx, ast.Store) for s_ in blk[:-1] for n in ast.walk(s_)):
+                            ok = False
+                if ok:
+                    for blk in lv:
+                        last = blk[-1]
+                        call = clone(nxt.value)
+                        call.func = last.value
+                        blk[-1] = ast.copy_location(ast.Expr(value=ast.copy_location(call, last)), last)
+                    out.append(st)
+                    i += 2
+                    continue
+            out.append(st)
+            i += 1
+        return out
+    fn.body = rewrite(fn.body)
+    ast.fix_missing_locations(fn)
+    return fn
+
+
+def propagate_aliases(fnode, allow_calls=('len',), only_simple=False, also_bool=False, in_loops=False, select=None, pure=None):
     """substitute locals that are bound exactly once (outside loops) to a pure expression whose inputs are
-    not stored afterwards; returns a new FunctionDef and the dict of substituted names"""
+    not stored afterwards; returns a new FunctionDef and the dict of substituted names.  in_loops: a binding inside a loop is
+    substituted too when every use lies after it in its own block (the same iteration).  select(name, value): which bindings to
+    consider.  pure(value): what counts as free of effects (default: names, attributes, constants, the calls in allow_calls)."""
     fn = clone(fnode)
     counts = _assigned_names(fn)
     params = {a.arg for a in fn.args.posonlyargs + fn.args.args + fn.args.kwonlyargs}
@@ -525,16 +585,20 @@ def propagate_aliases(fnode, allow_calls=('len',), only_simple=False, also_bool=
     visit(fn.body, False)
     subst = {}
     for idx, (st, in_loop) in enumerate(order):
-        if in_loop or not (isinstance(st, ast.Assign) and len(st.targets) == 1 and isinstance(st.targets[0], ast.Name)):
+        if (in_loop and not in_loops) or not (isinstance(st, ast.Assign) and len(st.targets) == 1 and isinstance(st.targets[0], ast.Name)):
             continue
         name = st.targets[0].id
         if counts.get(name) != 1 or name in params:
             continue
         v = st.value
+        if select is not None and not select(name, v):
+            continue
         boolish = isinstance(v, (ast.Compare, ast.BoolOp)) or (isinstance(v, ast.UnaryOp) and isinstance(v.op, ast.Not))
         if only_simple and not _simple_arg(v) and not (also_bool and boolish):
             continue
-        if not _pure(v, allow_calls):
+        if not (pure(v) if pure is not None else _pure(v, allow_calls)):
+            continue
+        if in_loop and not _same_block_uses(fn, st, name):
             continue
         reads = {norm(n) for n in ast.walk(v) if isinstance(n, (ast.Name, ast.Attribute))}
         later_stores = set()
